@@ -344,6 +344,9 @@ pub enum PolSpec {
     JumpTo(usize),
     /// refuse the first n requests, then behave like the inner policy
     RefuseFirst(usize, Box<PolSpec>),
+    /// answer "stay at the current size" to the first n requests (n <= 3), then behave like the inner
+    /// policy: it never refuses, the reader has to ask again
+    Hesitate(usize, Box<PolSpec>),
     RefuseAlways,
 }
 
@@ -355,6 +358,7 @@ impl PolSpec {
         match self {
             PolSpec::DoubleUntilLimited(..) | PolSpec::RefuseAlways => true,
             PolSpec::RefuseFirst(n, inner) => *n > 0 || inner.may_refuse(),
+            PolSpec::Hesitate(_, inner) => inner.may_refuse(),
             _ => false,
         }
     }
@@ -372,6 +376,25 @@ impl PolSpec {
                 (n + m, p)
             }
             PolSpec::RefuseAlways => (usize::MAX, Box::new(PlusK(1))),
+            PolSpec::Hesitate(n, inner) => {
+                let (m, p) = inner.build();
+                (m, Box::new(Hesitating { left: (*n).min(3), inner: p }))
+            }
+        }
+    }
+}
+
+struct Hesitating {
+    left: usize,
+    inner: Box<dyn BufPolicy + Send>,
+}
+impl BufPolicy for Hesitating {
+    fn grow_to(&mut self, current_size: usize) -> Option<usize> {
+        if self.left > 0 {
+            self.left -= 1;
+            Some(current_size)
+        } else {
+            self.inner.grow_to(current_size)
         }
     }
 }
@@ -403,6 +426,8 @@ pub struct PolLog {
     pub calls: Vec<(usize, usize, Option<usize>)>,
     pub budget: usize,
     pub budget_tripped: bool,
+    /// consecutive answers "stay at the current size"
+    pub stalled: usize,
 }
 
 pub struct RecPolicy {
@@ -438,9 +463,19 @@ impl BufPolicy for RecPolicy {
             self.inner.grow_to(current_size)
         };
         let mut log = self.log.borrow_mut();
+        if log.calls.last().map_or(true, |c| c.0 != self.generation) || ans.is_none() {
+            // another policy object has been installed, or this one refuses: the count of consecutive
+            // "stay" answers starts again
+            log.stalled = 0;
+        }
         log.calls.push((self.generation, current_size, ans));
         if let Some(a) = ans {
-            if a <= current_size {
+            if a == current_size {
+                log.stalled += 1;
+            } else {
+                log.stalled = 0;
+            }
+            if a < current_size || log.stalled > 3 {
                 // every policy of the harness wraps one of the crate's policies or adds a positive
                 // constant: a non-larger size comes from a built-in policy and makes the readers spin
                 log.budget_tripped = true;
